@@ -336,6 +336,26 @@ mod toc_part {
             let ok = back.as_ref().map(|b| b.verify_checksum().is_ok()).unwrap_or(false);
             if a != format!("ok {}", ok as u8) { sum.disagreement("Toc::verify_checksum vs model (legacy image)", case(), &a, &format!("ok {}", ok as u8)); }
         }
+        // the legacy rescue is guarded: the same checksum on a TOC that has a replay manifest (V2, V1) or a memories
+        // track (V1) must be refused
+        let mut guarded_cases: Vec<(&str, Toc)> = vec![];
+        let mut tr = want.clone();
+        tr.replay_manifest = Some(ReplayManifest { segment_offset: 1, segment_size: 2, session_count: 3, total_actions: 4, version: 1 });
+        guarded_cases.push(("replay_manifest present", tr));
+        if v1 {
+            let mut tm = want.clone();
+            tm.memories_track = Some(MemoriesTrackManifest { bytes_offset: 1, bytes_length: 2, card_count: 3, entity_count: 4, checksum: [9; 32] });
+            guarded_cases.push(("memories_track present", tm));
+        }
+        for (why, tg) in guarded_cases {
+            let ok = tg.verify_checksum().is_ok();
+            if ok { sum.oracle_violation("toc-legacy-checksum-rescue-unguarded", &format!("legacy checksum accepted although {why}"), case()); }
+            else { sum.branch("toc-legacy-rescue-guarded"); }
+            if let Some(d) = drv {
+                let a = d.ask(&format!("tocsum {}", hexw(&tg.encode().unwrap())));
+                if a != format!("ok {}", ok as u8) { sum.disagreement("Toc::verify_checksum vs model (guarded legacy rescue)", case(), &a, &format!("ok {}", ok as u8)); }
+            }
+        }
         // trailing bytes on a legacy image
         let mut x = img.clone(); x.push(0);
         let (r2, _) = real_decode(&x, false);
@@ -370,7 +390,7 @@ mod toc_part {
     pub fn expect(sum: &mut Summary) {
         let mut v = sum.expected_branches.clone();
         for b in ["toc-roundtrip-ok", "toc-clean-ok", "toc-append-err-trailing", "toc-cut-err-decode", "toc-mut-ok", "toc-mut-err-decode", "toc-mut-ok-exact",
-                  "toc-mut-ok-checksum-detects", "toc-legacy-v2-ok", "toc-legacy-v1-ok", "utf8-valid", "utf8-invalid"] { v.push(b.to_string()); }
+                  "toc-mut-ok-checksum-detects", "toc-legacy-v2-ok", "toc-legacy-v1-ok", "toc-legacy-rescue-guarded", "utf8-valid", "utf8-invalid"] { v.push(b.to_string()); }
         sum.expected_branches = v;
     }
 
